@@ -172,6 +172,14 @@ def run(F, R, tier):
         R.ob("loop-exit-depth", "%s: the jump is emitted at the height of the loop's body statements" % var, not deep,
              "a %s can be compiled while operands of an enclosing expression are on the stack, and its bare Jump leaves them there: %s" % (var.lower(), w) if deep else
              "no expression position reaches a %s" % var.lower(), F.loc(g))
+    for var in ("Loop", "While"):
+        r = res["stmt"].get((var, "fn"))
+        oks = [s for t, s in r["ends"] if t == "ok"] if r else []
+        evs = {e for s in oks for e in s.events if e[0] == "loop-begin"}
+        if any(len(e) > 2 and e[2] is not None for e in evs):
+            # the compiler counts pending operands: the loop must record the count it starts with
+            R.ob("loop-depth-recorded", "%s: the loop context records the operand depth at which the loop starts" % var,
+                 all(len(e) > 2 and e[2] == (0, ()) for e in evs), str(sorted(evs, key=repr)), F.loc(g))
     R.floor("break/continue jump sites", len(jump_kinds), 2)
     # ---- who may touch the instruction stream ---------------------------------------------------------------------------------------
     callers = {}
